@@ -59,7 +59,7 @@ class Task(object):
 
 class Sim(object):
     def __init__(self, tape, run, preempt_p=0.0, prim_p=None, target_files=(), target_prefixes=(), jitter=0,
-                 placements=None, max_steps=200000, max_time=1e7, epoch=1.6e9, trace_lines=True, timeskip=0.0):
+                 placements=None, max_steps=200000, max_time=1e7, epoch=1.6e9, trace_lines=True, timeskip=0.0, opcodes=False):
         self.tape = tape
         self.run = run
         self.preempt_p = preempt_p
@@ -76,6 +76,9 @@ class Sim(object):
         # a pre-empted task may stay descheduled while virtual time passes: a pre-emption may hand the processor to the
         # task whose timer is due next, if that is at most `timeskip` seconds ahead (0 = computation never takes time)
         self.timeskip = timeskip
+        # opcode granularity: every bytecode instruction of a target frame is a pre-emption point (races inside one
+        # source line, e.g. between reading a shared attribute twice, become reachable); roughly 10x more points
+        self.opcodes = opcodes
         self.now = 0.0
         self.tasks = []
         self.current = None
@@ -131,6 +134,14 @@ class Sim(object):
             return None
         last = [None]
         sim = self
+        if self.opcodes:
+            frame.f_trace_opcodes = True
+
+            def local_op(frame, event, arg):
+                if event == 'opcode':
+                    sim.line_point(frame)
+                return local_op
+            return local_op
 
         def local(frame, event, arg):
             if event == 'line':
